@@ -146,17 +146,24 @@ AllDone == \A t \in Threads : pc[t] = "done"
 
 \* reset() called when every thread has left instance() and was joined (so everything of the
 \* epoch happens-before it), followed by the start of a new group of n threads.
+EpochStartNext(k) ==
+   /\ pc' = [t \in 1..k |-> "fast_read"] /\ loc' = [t \in 1..k |-> 0]
+   /\ returned' = [t \in 1..k |-> 0] /\ retArg' = [t \in 1..k |-> 0]
+   /\ hist' = [t \in 1..k |-> <<"fast_read">>]
+   /\ vc' = [t \in 1..k |-> StartClk(Clk, t)] /\ mclk' = ZeroClk(Clk) /\ pclk' = ZeroClk(Clk)
+   /\ mem' = InitMem(Locs) /\ constructions' = 0 /\ mutex' = 0
+
 ResetAll ==
    /\ AllDone /\ mutex = 0
    /\ epoch' = epoch + 1
    /\ ptr' = 0 /\ objArg' = 0
    /\ destructions' = destructions + (IF ptr # 0 THEN 1 ELSE 0)
+   /\ EpochStartNext(n)
    /\ UNCHANGED <<n, nextId>>
-   /\ pc' = [t \in Threads |-> "fast_read"] /\ loc' = [t \in Threads |-> 0]
-   /\ returned' = [t \in Threads |-> 0] /\ retArg' = [t \in Threads |-> 0]
-   /\ hist' = [t \in Threads |-> <<"fast_read">>]
-   /\ vc' = [t \in Threads |-> StartClk(Clk, t)] /\ mclk' = ZeroClk(Clk) /\ pclk' = ZeroClk(Clk)
-   /\ mem' = InitMem(Locs) /\ constructions' = 0 /\ mutex' = 0
+
+\* a new execution with k threads (trace specifications: the Reset event)
+ResetTo(k) == /\ n' = k /\ epoch' = 1 /\ ptr' = 0 /\ nextId' = 1 /\ destructions' = 0 /\ objArg' = 0
+              /\ EpochStartNext(k)
 
 Next == (\E t \in Threads : Step(t)) \/ ResetAll
 
@@ -188,6 +195,7 @@ NoStuck      == (\E t \in Threads : pc[t] # "done") =>
 RoundDone(cons, rets, args, paths) ==
    /\ \A t \in Threads : pc[t] = "fast_read"
    /\ DOMAIN rets = Threads /\ DOMAIN args = Threads /\ DOMAIN paths = Threads
+   /\ \A t \in Threads : Len(paths[t]) > 0
    /\ pc' = [t \in Threads |-> paths[t][Len(paths[t])]]
    /\ hist' = paths /\ returned' = rets /\ retArg' = args
    /\ constructions' = cons /\ nextId' = nextId + cons
